@@ -30,7 +30,7 @@ Print Assumptions C07_scripts_keep_the_protocol.
    has finished (suite Begin is a transitive dependency of every task of the suite and of its sub-suites; suite End depends
    on Begin, tests, teardown and sub-suite Ends — the edges are those of runner.build_tasks, compared on every run). *)
 Theorem C07_suite_brackets : forall g n sof t e, dep_path g t e ->
-  forall ms1 md ms2 s, 1 <= n -> no_interrupt ms1 ->
+  forall ms1 md ms2 s, 1 <= n ->
   run g n sof (init g n) (ms1 ++ MTake t md :: ms2) = Some s ->
   occurs (is_take e) ms1 /\ occurs (is_finish e) ms1 /\ occurs (is_main e) ms1.
 Proof. exact take_after_transitive_dependencies. Qed.
